@@ -97,11 +97,21 @@ def run(ctx: Ctx, rs: RuleSet, tier: str):
     st = g.stmt[n]
     if isinstance(st, ast.Return) and st.value is not None and any(
         isinstance(x, ast.Attribute) and x.attr == 'memo'
-        for x in ast.walk(roles.deref(apply, st.value))):
+        for x in ast.walk(roles.deref_deep(apply, st.value))):
       hit_rets.append((n, st))
   ok = bool(hit_rets)
   for n, st in hit_rets:
     v = roles.deref(apply, st.value)
+    if isinstance(v, ast.Subscript) and isinstance(v.value, ast.Name):
+      # the entry looked up first: `entry = self.memo.get(k, MISSING)`
+      inner = roles.deref(apply, v.value)
+      if isinstance(inner, ast.Call) and isinstance(
+          inner.func, ast.Attribute) and inner.func.attr == 'get' and isinstance(
+              inner.func.value, ast.Attribute) and (
+                  inner.func.value.attr == 'memo') and inner.args:
+        v = ast.Subscript(value=ast.Subscript(
+            value=inner.func.value, slice=inner.args[0], ctx=ast.Load()),
+                          slice=v.slice, ctx=ast.Load())
     if result_slot == 'whole':
       good = isinstance(v, ast.Subscript) and not isinstance(
           v.value, ast.Subscript)
@@ -111,10 +121,17 @@ def run(ctx: Ctx, rs: RuleSet, tier: str):
               isinstance(v.value, ast.Subscript))
     ok = ok and good
     # the hit branch is guarded by `<id> in self.memo`
-    guards = [m for m in g.nodes() if g.kind[m] == 'if' and any(
+    guards = [m for m in g.nodes() if g.kind[m] == 'if' and (any(
         isinstance(c, ast.Compare) and isinstance(c.ops[0], ast.In) and
         isinstance(c.comparators[0], ast.Attribute) and
-        c.comparators[0].attr == 'memo' for c in ast.walk(g.stmt[m].test))]
+        c.comparators[0].attr == 'memo' for c in ast.walk(g.stmt[m].test))
+                                                           or any(
+        # `<entry> is not <sentinel>` for an entry fetched with .get
+        isinstance(c, ast.Compare) and isinstance(
+            c.ops[0], (ast.Is, ast.IsNot)) and isinstance(
+                c.left, ast.Name) and '.memo.get(' in unparse(
+                    roles.deref(apply, c.left))
+        for c in ast.walk(g.stmt[m].test)))]
     ok = ok and bool(guards) and g.dominated_by(n, set(guards),
                                                 labels=cfg_lib.NO_EXC)
   rs.check(ok, rule, f'{apply.qualname}:memo-hit',
@@ -217,6 +234,27 @@ def run(ctx: Ctx, rs: RuleSet, tier: str):
       # it must be tested before the entry is (re)set
       before = all(g.dominated_by(x, {m}, labels=cfg_lib.NO_EXC) for x in sets)
       if g.exit not in r and g.raise_exit in r and before:
+        ok = True
+  if not ok:
+    # the same test written as a lookup: `try: s = self._cycle_start[k]` /
+    # `except KeyError: pass` / `else: raise`
+    for t_ in walk_function(apply.node):
+      if not (isinstance(t_, ast.Try) and t_.orelse and not t_.finalbody):
+        continue
+      looks = [x for b_ in t_.body for x in ast.walk(b_) if isinstance(
+          x, ast.Subscript) and isinstance(x.ctx, ast.Load) and isinstance(
+              x.value, ast.Attribute) and x.value.attr == '_cycle_start']
+      only_lookup = len(t_.body) == 1 and bool(looks)
+      misses = all(isinstance(h_.type, ast.Name) and h_.type.id == 'KeyError'
+                   and all(isinstance(b_, ast.Pass) for b_ in h_.body)
+                   for h_ in t_.handlers) and bool(t_.handlers)
+      raises = isinstance(t_.orelse[-1], ast.Raise) or isinstance(
+          t_.orelse[0], ast.Raise)
+      try_nodes = [m for m in g.nodes() if g.stmt[m] is t_.body[0]]
+      before = bool(try_nodes) and all(
+          g.dominated_by(x, set(try_nodes), labels=cfg_lib.NO_EXC)
+          for x in sets)
+      if only_lookup and misses and raises and before:
         ok = True
   rs.check(ok, rule, f'{apply.qualname}:hit-raises',
            'meeting a value that is still on the traversal stack raises',
